@@ -15,6 +15,8 @@ Section node_ind.
   Hypothesis HStmt : forall t, P (NStmt t).
   Hypothesis HFrame : forall s body, Forall P body -> P (NFrame s body).
   Hypothesis HBlock : forall s body, Forall P body -> P (NBlock s body).
+  Hypothesis HMixin : forall n p body, Forall P body -> P (NMixin n p body).
+  Hypothesis HCall : forall n a, P (NCall n a).
   Fixpoint node_ind' (n : node) : P n :=
     let fix go (l : list node) : Forall P l :=
       match l with [] => Forall_nil _ | x :: r => Forall_cons _ (node_ind' x) (go r) end in
@@ -24,6 +26,8 @@ Section node_ind.
     | NStmt t => HStmt t
     | NFrame s body => HFrame s body (go body)
     | NBlock s body => HBlock s body (go body)
+    | NMixin n p body => HMixin n p body (go body)
+    | NCall n a => HCall n a
     end.
 End node_ind.
 
@@ -162,12 +166,12 @@ Theorem eval_rules_only :
   forall n, rules_only n -> forall parent sc,
     exists os, eval_node parent sc n = ROk (os, sc) /\ stmt_result parent sc n os.
 Proof.
-  induction n as [nm v i|nm v|t|s body IH|sel body IH] using node_ind'; intros Hro parent sc; try contradiction.
+  induction n as [nm v i|nm v|t|s body IH|sel body IH|mn mp mb IH|cn ca] using node_ind'; intros Hro parent sc; try contradiction.
   - cbn [rules_only] in Hro. eexists. split.
-    + cbn [eval_node]. rewrite preprocess_plain by assumption. rewrite eval_value_plain_vf by assumption. reflexivity.
+    + cbn [eval_node_g]. rewrite preprocess_plain by assumption. rewrite eval_value_plain_vf by assumption. reflexivity.
     + reflexivity.
   - apply rules_only_body in Hro as [Hsel Hbody].
-    cbn [eval_node]. rewrite (plain_not_subparse sel Hsel).
+    cbn [eval_node_g]. rewrite (plain_not_subparse sel Hsel).
     assert (sets_current sel = true) as ->.
     { destruct sel as [|t r]; [reflexivity|]. unfold sets_current, plain_sel in *.
       destruct t as [|c t']; [reflexivity|]. destruct c as [[] [] [] [] [] [] [] []]; try reflexivity; discriminate. }
@@ -192,7 +196,7 @@ Proof.
         destruct (IHc Hc (Some me) sc1) as (os & Ec & Rc). destruct (IHr IHrest Hrest sc1) as (rest & Er & P1 & P2 & P4 & P3).
         exists (os ++ rest). rewrite Ec. cbn [rbind]. rewrite Er. cbn [rbind]. split; [reflexivity|].
         rewrite !filter_app, flat_map_app, forallb_app.
-        destruct c as [nm v i|nm v|t|s b|s b]; cbn [stmt_result] in Rc; try (cbn [rules_only] in Hc; contradiction).
+        destruct c as [nm v i|nm v|t|s b|s b|mn mp mb|cn ca]; cbn [stmt_result] in Rc; try (cbn [rules_only] in Hc; contradiction).
         + subst os. cbn [filter obj_is_block negb obj_is_media andb flat_map app own_props flat forallb].
           rewrite P1, P2, P3, P4. auto.
         + destruct Rc as [Hall Hg]. destruct (filter_blocks_all os Hall) as (A & B & C).
@@ -267,7 +271,7 @@ Fixpoint rules_with_decls (n : node) : nat :=
   end.
 Lemma flat_count n : forall parent, length (flat parent n) = rules_with_decls n.
 Proof.
-  induction n as [nm v i|nm v|t|s body IH|sel body IH] using node_ind'; intros parent; try reflexivity.
+  induction n as [nm v i|nm v|t|s body IH|sel body IH|mn mp mb IH|cn ca] using node_ind'; intros parent; try reflexivity.
   cbn [flat rules_with_decls]. rewrite app_length. f_equal; [destruct (own_props body); reflexivity|].
   generalize (ident_parse parent sel) as me. intros me. induction body as [|x r IHr]; [reflexivity|].
   inversion IH as [|? ? Hx Hr]; subst. rewrite app_length, Hx. f_equal. now apply IHr.
@@ -285,7 +289,7 @@ Proof.
   - inversion Hall as [|? ? Hn Hr]; subst.
     destruct (eval_rules_only n Hn None sc) as (os & E & R).
     destruct (IH Hr (fun m Hm => Hblk m (or_intror Hm))) as (rest & Er & Pt & Pg).
-    exists (os ++ rest). cbn [eval_units]. rewrite E. cbn [rbind]. rewrite Er. cbn [rbind]. split; [reflexivity|].
+    exists (os ++ rest). cbn [eval_units_g]. rewrite E. cbn [rbind]. rewrite Er. cbn [rbind]. split; [reflexivity|].
     pose proof (Hblk n (or_introl eq_refl)) as Hb. destruct n; try contradiction. cbn [stmt_result] in R. destruct R as [Ra Rg].
     rewrite forallb_app, flat_map_app, Pt, Pg, Rg. cbn [flat_map]. split; [|reflexivity].
     rewrite (proj2 (forallb_forall _ _) (proj1 (Forall_forall _ _) Ra)). reflexivity.
